@@ -1,6 +1,7 @@
 //! gv — the conformance harness: drives the real grenad (path dependency on /repo, built with
 //! --cfg grenad_verif) and records one ndjson event per public call. TLC validates the traces.
 mod alloc;
+mod api;
 mod cursor;
 mod decode;
 mod faults;
@@ -67,6 +68,7 @@ fn run_scenario(out: &mut TraceOut, family: &str, seed: u64, idx: u64, heavy: bo
         "explore" => cursor::scn_explore(out, &mut r, idx, heavy),
         "chunks" => sorter::scn_chunks(out, &mut r, idx, heavy),
         "wprefix" => sched::scn_wprefix(out, &mut r, idx, heavy),
+        "api" => api::scn_api(out, &mut r, idx, heavy),
         "format" => layout::scn_format(out, &mut r, idx, heavy),
         "cut" => layout::scn_cut(out, &mut r, idx, heavy),
         "unsorted" => layout::scn_unsorted(out, &mut r, idx, heavy),
